@@ -52,11 +52,13 @@ func (env *SpecEnv) with(vars map[string]SpecVal) *SpecEnv {
 func (env *SpecEnv) resolveSort(typ string) (string, types.Type) {
 	g := env.g
 	switch typ {
+	case "string":
+		return "Str", types.Typ[types.String]
 	case "int", "Int", "uint", "int32", "uint32", "int64":
 		return "Int", nil
 	case "bool", "Bool":
 		return "Bool", nil
-	case "string", "Str":
+	case "Str":
 		return "Str", nil
 	case "Slice":
 		return "Slice", nil
@@ -259,10 +261,25 @@ func (env *SpecEnv) tr(e Expr) SpecVal {
 			bs = append(bs, fmt.Sprintf("(%s %s)", name, s))
 			_ = facts
 		}
-		body := env.with(vars).boolT(x.Body)
+		benv := env.with(vars)
+		body := benv.boolT(x.Body)
 		q := "exists"
 		if x.Forall {
 			q = "forall"
+		}
+		if len(x.Triggers) > 0 {
+			pat := ""
+			save := benv.noUnfold
+			benv.noUnfold = true
+			for _, mp := range x.Triggers {
+				var ps []string
+				for _, p := range mp {
+					ps = append(ps, benv.tr(p).T)
+				}
+				pat += " :pattern (" + strings.Join(ps, " ") + ")"
+			}
+			benv.noUnfold = save
+			return SpecVal{fmt.Sprintf("(%s (%s) (! %s%s))", q, strings.Join(bs, " "), body, pat), "Bool", nil}
 		}
 		return SpecVal{fmt.Sprintf("(%s (%s) %s)", q, strings.Join(bs, " "), body), "Bool", nil}
 	}
@@ -569,7 +586,7 @@ func (env *SpecEnv) idx(x EIdx) SpecVal {
 		}
 		et := v.Go.Underlying().(*types.Slice).Elem()
 		heap := g.so.sliceHeapFor(et)
-		return SpecVal{fmt.Sprintf("(select (select %s (s.base %s)) (+ (s.off %s) %s))", env.heapT(env.cur, heap), v.T, v.T, i.T), g.so.sortOf(et), et}
+		return SpecVal{fmt.Sprintf("(select (select %s (s.base %s)) (sidx (s.off %s) %s))", env.heapT(env.cur, heap), v.T, v.T, i.T), g.so.sortOf(et), et}
 	}
 	if _, vs, ok := arraySorts(v.Sort); ok {
 		var gt types.Type
@@ -1023,6 +1040,19 @@ func (g *VCGen) specFnInfo(sf *SpecFn) *specFnInfo {
 		if sf.Rec {
 			// uninterpreted; unfolded explicitly where applied to ground terms (see unfoldRec)
 			g.specDecls = append(g.specDecls, fmt.Sprintf("(declare-fun %s (%s) %s)", smtFn(sf), strings.Join(inf.paramSorts, " "), inf.retSort))
+		} else if inf.retSort == "Bool" && (strings.Contains(body.T, "(forall ") || strings.Contains(body.T, "(exists ")) && len(params) > 0 {
+			// quantified predicates are opaque atoms with a definitional axiom triggered on the application
+			// (macro-expanding them made every solver lose track of literally asserted facts in large contexts)
+			var sorts, names []string
+			for _, p := range params {
+				f := strings.SplitN(strings.TrimSuffix(strings.TrimPrefix(p, "("), ")"), " ", 2)
+				names = append(names, f[0])
+				sorts = append(sorts, f[1])
+			}
+			app := "(" + smtFn(sf) + " " + strings.Join(names, " ") + ")"
+			g.specDecls = append(g.specDecls,
+				fmt.Sprintf("(declare-fun %s (%s) Bool)", smtFn(sf), strings.Join(sorts, " ")),
+				fmt.Sprintf("(assert (forall (%s) (! (= %s %s) :pattern (%s))))", strings.Join(params, " "), app, body.T, app))
 		} else {
 			g.specDecls = append(g.specDecls, fmt.Sprintf("(define-fun %s (%s) %s %s)", smtFn(sf), strings.Join(params, " "), inf.retSort, body.T))
 		}
